@@ -22,7 +22,8 @@ RULE = (
     "shape x fault plan with <= bound deviations, then probe set;get without faults; non-trivial = >=1 "
     "hard deviation hit the read call; distinct = distinct (stack, shape, deviation kinds, result repr)"
 )
-STACKS = ("client", "pooled", "hash1", "hash2", "hash2p", "hash0")
+STACKS = ("client", "pooled", "pooled_idle", "hash1", "hash2", "hash2p", "hash0")
+IDLE = 10
 D, C = "DFLT", "CASD"
 SHAPES = [
     Op("get", "a"),
@@ -52,7 +53,7 @@ class RaisingSerde:
 
 
 def cls_of(stack):
-    return {"client": Client, "pooled": PooledClient}.get(stack, HashClient)
+    return {"client": Client, "pooled": PooledClient, "pooled_idle": PooledClient}.get(stack, HashClient)
 
 
 GAP = 2  # seconds between warm-up and read when warm == "gap": beyond HashClient's retry_timeout (1 s)
@@ -65,13 +66,17 @@ def run_case(ch, stack, serde, warm, shape, preload=True, probe=True):
     cfg = dict(ignore_exc=True, default_noreply=True, connect_timeout=3, timeout=7)
     if serde:
         cfg["serde"] = RaisingSerde()
-    obj = stacks.build(stack, net, **cfg)
+    if stack == "pooled_idle":
+        # the warmed-up connection outlives pool_idle_timeout: the next checkout has to dispose of it first
+        obj = stacks.build("pooled", net, pool_idle_timeout=IDLE, **cfg)
+    else:
+        obj = stacks.build(stack, net, **cfg)
     seq = ([WARM] if warm else []) + [shape]
     rec = []
     for i, op in enumerate(seq, 1):
         net.call = i
         if warm == "gap" and i == 2:
-            net.clock.advance(GAP)
+            net.clock.advance(IDLE + 1 if stack == "pooled_idle" else GAP)
         try:
             rec.append(("ret", op.call(obj)))
         except Exception as e:
@@ -167,7 +172,9 @@ def _jobs(tier):
     for stack in STACKS:
         for serde in (False, True):
             for warm in (False, True, "gap"):
-                if warm == "gap" and not stack.startswith("hash"):
+                if warm == "gap" and not (stack.startswith("hash") or stack == "pooled_idle"):
+                    continue
+                if stack == "pooled_idle" and warm != "gap":
                     continue
                 for si in range(len(SHAPES)):
                     jobs.append((stack, serde, warm, si, tier))
